@@ -50,7 +50,7 @@ func (ap *aacPacketizer) prepareAsc() (err error) {
 }
 
 func (ap *aacPacketizer) Packetize(frame *codec.Frame) error {
-	pts := frame.Pts * 90000 / int64(time.Second) // 90000Hz
+	pts := frame.Pts * 9 / int64(time.Second/10000) // 90000Hz（先约分：ns*90000 在约 28.5 小时后溢出 int64）
 
 	// set fields
 	tsframe := &Frame{
